@@ -101,13 +101,13 @@ theorem vok_bytes (b : Bytes) : shapeWs (b.map fun x => JV.num (.pos x.toNat)) =
 def VOKb (v : JV) : Prop := shapeW v = true ∧ Spec.WF.noFloat v = true
 
 mutual
-theorem vok_valueOf : ∀ (s : Schema) (v : TVal), agreeFrag2 s = true → wfTV s v = true → VOKb (valueOf s v)
+theorem vok_valueOf : ∀ (s : Schema) (v : TVal), fragP false s = true → wfTV s v = true → VOKb (valueOf s v)
   | .bool, v, _, h => by cases v <;> simp_all [wfTV, valueOf, VOKb, shapeW, Spec.WF.noFloat]
   | .int w, v, _, h => by
     cases v <;> simp_all [wfTV, valueOf, VOKb]
     exact vok_intJV _
-  | .f64, v, hf, _ => by simp [agreeFrag2] at hf
-  | .f32, v, hf, _ => by simp [agreeFrag2] at hf
+  | .f64, v, hf, _ => by simp [fragP] at hf
+  | .f32, v, hf, _ => by simp [fragP] at hf
   | .char, v, _, h => by
     cases v <;> simp_all [wfTV, valueOf, VOKb, shapeW, Spec.WF.noFloat]
     exact validUtf8_scalar _ h
@@ -121,19 +121,19 @@ theorem vok_valueOf : ∀ (s : Schema) (v : TVal), agreeFrag2 s = true → wfTV 
     | some x =>
       simp only [wfTV, Bool.and_eq_true] at h
       simp only [valueOf]
-      exact vok_valueOf s x (by simpa [agreeFrag2] using hf) h.1
+      exact vok_valueOf s x (by simpa [fragP] using hf) h.1
     | _ => simp [wfTV] at h
   | .unit, v, _, _ => by simp [valueOf, VOKb, shapeW, Spec.WF.noFloat]
   | .unitStruct, v, _, _ => by simp [valueOf, VOKb, shapeW, Spec.WF.noFloat]
   | .newtype s, v, hf, h => by
     simp only [wfTV] at h
     simp only [valueOf]
-    exact vok_valueOf s v (by simpa [agreeFrag2] using hf) h
+    exact vok_valueOf s v (by simpa [fragP] using hf) h
   | .seq s, v, hf, h => by
     cases v with
     | seq xs =>
       simp only [wfTV, List.all_eq_true] at h
-      have ih := fun x hx => vok_valueOf s x (by simpa [agreeFrag2] using hf) (h x hx)
+      have ih := fun x hx => vok_valueOf s x (by simpa [fragP] using hf) (h x hx)
       simp only [valueOf, VOKb, shapeW, Spec.WF.noFloat]
       exact ⟨shapeWs_map _ xs fun x hx => (ih x hx).1, noFloats_map _ xs fun x hx => (ih x hx).2⟩
     | _ => simp [wfTV] at h
@@ -142,13 +142,13 @@ theorem vok_valueOf : ∀ (s : Schema) (v : TVal), agreeFrag2 s = true → wfTV 
     | seq xs =>
       simp only [wfTV] at h
       simp only [valueOf, VOKb, shapeW, Spec.WF.noFloat]
-      exact vok_tuple ss xs (by simpa [agreeFrag2] using hf) h
+      exact vok_tuple ss xs (by simpa [fragP] using hf) h
     | _ => simp [wfTV] at h
   | .map k s, v, hf, h => by
     cases v with
     | map kvs =>
       simp only [wfTV, List.all_eq_true, Bool.and_eq_true] at h
-      have hf' : keyFrag k = true ∧ agreeFrag2 s = true := by simpa [agreeFrag2] using hf
+      have hf' : keyFrag k = true ∧ fragP false s = true := by simpa [fragP] using hf
       have ih := fun kv hx => vok_valueOf s kv.2 hf'.2 (h kv hx).2
       simp only [valueOf, VOKb, shapeW, Spec.WF.noFloat]
       exact ⟨shapeWm_map _ _ kvs fun kv hx => ⟨validUtf8_keyText k kv.1 hf'.1 (h kv hx).1, (ih kv hx).1⟩,
@@ -159,65 +159,65 @@ theorem vok_valueOf : ∀ (s : Schema) (v : TVal), agreeFrag2 s = true → wfTV 
     | struct_ xs =>
       simp only [wfTV, Bool.and_eq_true, namesOK, List.all_eq_true] at h
       simp only [valueOf, VOKb, shapeW, Spec.WF.noFloat]
-      exact vok_fields fs xs (by simpa [agreeFrag2] using hf) h.2 (fun n hn => h.1.1 n hn)
+      exact vok_fields fs xs (by simpa [fragP] using hf) h.2 (fun n hn => h.1.1 n hn)
     | _ => simp [wfTV] at h
   | .enum_ vs, v, hf, h => by
     cases v with
     | variant i p =>
       simp only [wfTV, Bool.and_eq_true, namesOK, List.all_eq_true] at h
       simp only [valueOf]
-      exact vok_variant vs i p (by simpa [agreeFrag2] using hf) h.2 (fun n hn => h.1.1 n hn)
+      exact vok_variant vs i p (by simpa [fragP] using hf) h.2 (fun n hn => h.1.1 n hn)
     | _ => simp [wfTV] at h
   | .ignored, v, _, h => by simp [wfTV] at h
-  | .any, v, hf, _ => by simp [agreeFrag2] at hf
-theorem vok_tuple : ∀ (ss : List Schema) (xs : List TVal), agreeFrag2List ss = true → wfTuple ss xs = true →
+  | .any, v, hf, _ => by simp [fragP] at hf
+theorem vok_tuple : ∀ (ss : List Schema) (xs : List TVal), fragPList false ss = true → wfTuple ss xs = true →
     shapeWs (valueTuple ss xs) = true ∧ Spec.WF.noFloats (valueTuple ss xs) = true
   | [], xs, _, _ => by simp [valueTuple, shapeWs, Spec.WF.noFloats]
   | s :: ss, [], _, h => by simp [wfTuple] at h
   | s :: ss, x :: xs, hf, h => by
     simp only [wfTuple, Bool.and_eq_true] at h
-    simp only [agreeFrag2List, Bool.and_eq_true] at hf
+    simp only [fragPList, Bool.and_eq_true] at hf
     have h1 := vok_valueOf s x hf.1 h.1
     have h2 := vok_tuple ss xs hf.2 h.2
     simp only [valueTuple, shapeWs, Spec.WF.noFloats, Bool.and_eq_true]
     exact ⟨⟨h1.1, h2.1⟩, h1.2, h2.2⟩
-theorem vok_fields : ∀ (fs : List (Bytes × Schema)) (xs : List TVal), agreeFrag2Fields fs = true →
+theorem vok_fields : ∀ (fs : List (Bytes × Schema)) (xs : List TVal), fragPFields false fs = true →
     Model.TypedSer.wfFields fs xs = true → (∀ n ∈ fs.map (·.1), Spec.Utf8.validUtf8 n = true) →
     shapeWm (valueFields fs xs) = true ∧ Spec.WF.noFloatm (valueFields fs xs) = true
   | [], xs, _, _, _ => by simp [valueFields, shapeWm, Spec.WF.noFloatm]
   | (n, s) :: fs, [], _, h, _ => by simp [Model.TypedSer.wfFields] at h
   | (n, s) :: fs, x :: xs, hf, h, hn => by
     simp only [Model.TypedSer.wfFields, Bool.and_eq_true] at h
-    simp only [agreeFrag2Fields, Bool.and_eq_true] at hf
+    simp only [fragPFields, Bool.and_eq_true] at hf
     have h1 := vok_valueOf s x hf.1 h.1
     have h2 := vok_fields fs xs hf.2 h.2 (fun m hm => hn m (by simp at hm ⊢; exact .inr hm))
     simp only [valueFields, shapeWm, Spec.WF.noFloatm, Bool.and_eq_true]
     exact ⟨⟨⟨hn n (by simp), h1.1⟩, h2.1⟩, h1.2, h2.2⟩
-theorem vok_variant : ∀ (vs : List (Bytes × VariantShape)) (i : Nat) (p : TVal), agreeFrag2Variants vs = true →
+theorem vok_variant : ∀ (vs : List (Bytes × VariantShape)) (i : Nat) (p : TVal), fragPVariants false vs = true →
     wfVariant vs i p = true → (∀ n ∈ vs.map (·.1), Spec.Utf8.validUtf8 n = true) → VOKb (valueVariant vs i p)
   | [], i, p, _, h, _ => by simp [wfVariant] at h
   | (n, sh) :: vs, 0, p, hf, h, hn => by
-    simp only [agreeFrag2Variants, Bool.and_eq_true] at hf
+    simp only [fragPVariants, Bool.and_eq_true] at hf
     simp only [wfVariant] at h
     simp only [valueVariant]
     exact vok_shape n sh p hf.1 h (hn n (by simp))
   | (n, sh) :: vs, i + 1, p, hf, h, hn => by
-    simp only [agreeFrag2Variants, Bool.and_eq_true] at hf
+    simp only [fragPVariants, Bool.and_eq_true] at hf
     simp only [wfVariant] at h
     simp only [valueVariant]
     exact vok_variant vs i p hf.2 h (fun m hm => hn m (by simp at hm ⊢; exact .inr hm))
-theorem vok_shape : ∀ (n : Bytes) (sh : VariantShape) (p : TVal), agreeFrag2Shape sh = true → wfShape sh p = true →
+theorem vok_shape : ∀ (n : Bytes) (sh : VariantShape) (p : TVal), fragPShape false sh = true → wfShape sh p = true →
     Spec.Utf8.validUtf8 n = true → VOKb (valueShape n sh p)
   | n, .unit, p, _, _, hn => by simp [valueShape, VOKb, shapeW, Spec.WF.noFloat, hn]
   | n, .newtype s, p, hf, h, hn => by
     simp only [wfShape] at h
-    have := vok_valueOf s p (by simpa [agreeFrag2Shape] using hf) h
+    have := vok_valueOf s p (by simpa [fragPShape] using hf) h
     simp [valueShape, VOKb, shapeW, shapeWm, Spec.WF.noFloat, Spec.WF.noFloatm, hn, this.1, this.2]
   | n, .tuple ss, p, hf, h, hn => by
     cases p with
     | seq xs =>
       simp only [wfShape] at h
-      have hfl : (!ss.isEmpty && agreeFrag2List ss) = true := by simpa [agreeFrag2Shape] using hf
+      have hfl : (!ss.isEmpty && fragPList false ss) = true := by simpa [fragPShape] using hf
       simp only [Bool.and_eq_true] at hfl
       have := vok_tuple ss xs hfl.2 h
       simp [valueShape, VOKb, shapeW, shapeWm, Spec.WF.noFloat, Spec.WF.noFloatm, hn, this.1, this.2]
@@ -226,7 +226,7 @@ theorem vok_shape : ∀ (n : Bytes) (sh : VariantShape) (p : TVal), agreeFrag2Sh
     cases p with
     | struct_ xs =>
       simp only [wfShape, Bool.and_eq_true, namesOK, List.all_eq_true] at h
-      have := vok_fields fs xs (by simpa [agreeFrag2Shape] using hf) h.2 (fun m hm => h.1.1 m hm)
+      have := vok_fields fs xs (by simpa [fragPShape] using hf) h.2 (fun m hm => h.1.1 m hm)
       simp [valueShape, VOKb, shapeW, shapeWm, Spec.WF.noFloat, Spec.WF.noFloatm, hn, this.1, this.2]
     | _ => simp [wfShape] at h
 end
